@@ -10,12 +10,12 @@ from hypothesis import strategies as st
 from vlib.common import Outcome, Violation
 
 PROPERTY = "C17"
-RULE = ("histories of up to 12 operations {create, validate, rename, unlink, foreign overwrite (live pid / dead pid / EPERM pid / "
+RULE = ("histories of up to 12 operations {create, validate, rename, unlink, foreign overwrite (live pid incl. 1 and 2 / dead pid / EPERM pid / "
         "garbage / empty / own pid), owner death, revive} by 3 instances (own fake pid each) on 2 paths, executed by the real Pidfile "
         "class on a scratch directory with gunicorn.pidfile.os/tempfile/open proxied (per-instance getpid, model-driven kill(pid,0)); after "
         "every step the directory is compared with a path->content model (create refuses iff the file names another live pid and leaves "
         "it untouched, unlink/rename remove only a file holding the caller's pid, no temp files left). Plus, exhaustively, a crash "
-        "(before / after / half-way through) every proxied system call of create and rename in 5 starting states: afterwards the path is "
+        "(before / after / half-way through) every proxied system call of create and rename in 6 starting states: afterwards the path is "
         "absent, or holds the complete previous content, or the complete new '<pid>\\n'. non-trivial = >=2 instances touch one path or a "
         "crash point fired; distinct by case hash")
 ASSUMPTIONS = [
@@ -177,7 +177,7 @@ OPS = st.one_of(
     st.tuples(st.just("validate"), st.integers(0, 2), st.integers(0, 1)),
     st.tuples(st.just("unlink"), st.integers(0, 2), st.just(0)),
     st.tuples(st.just("rename"), st.integers(0, 2), st.integers(0, 1)),
-    st.tuples(st.just("foreign"), st.sampled_from(["live", "dead", "eperm", "garbage", "empty", "inst0", "inst1", "nonl", "zero"]),
+    st.tuples(st.just("foreign"), st.sampled_from(["live", "dead", "eperm", "garbage", "empty", "inst0", "inst1", "nonl", "zero", "one", "two"]),
               st.integers(0, 1)),
     st.tuples(st.just("die"), st.integers(0, 2), st.just(0)),
     st.tuples(st.just("revive"), st.integers(0, 2), st.just(0)),
@@ -189,7 +189,7 @@ def strategy(tier):
                                   "ops": st.lists(OPS, min_size=1, max_size=12).map(lambda l: [list(x) for x in l])})
 
 
-START_STATES = ["absent", "stale", "garbage", "own", "live-other"]
+START_STATES = ["absent", "stale", "garbage", "own", "live-other", "live-pid-1"]
 
 
 REAL_HISTORIES = [["hup"], ["hup", "hup"], ["hup", "hup", "hup"], ["usr2", "term-old"], ["hup", "usr2", "term-new", "hup"], []]
@@ -304,11 +304,11 @@ def extra_cases(tier, seed, shard, nshards):
                         yield {"kind": "crash", "op": op, "start": start, "at": at, "when": when}
 
 
-EXHAUSTIVE_NOTE = ("crash points: {create, rename} x 5 starting states x proxied system-call index 0..9 x {before, after, partial write} "
+EXHAUSTIVE_NOTE = ("crash points: {create, rename} x 6 starting states x proxied system-call index 0..9 x {before, after, partial write} "
                    "enumerated completely (indices beyond the last call of an operation are no-ops and counted as trivial)")
 
 FOREIGN = {"live": "%d\n" % FOREIGN_LIVE, "dead": "%d\n" % FOREIGN_DEAD, "eperm": "%d\n" % FOREIGN_EPERM, "garbage": "not-a-pid\n",
-           "empty": "", "inst0": "%d\n" % PIDS[0], "inst1": "%d\n" % PIDS[1], "nonl": "%d" % FOREIGN_LIVE, "zero": "0\n"}
+           "empty": "", "one": "1\n", "two": "2\n", "inst0": "%d\n" % PIDS[0], "inst1": "%d\n" % PIDS[1], "nonl": "%d" % FOREIGN_LIVE, "zero": "0\n"}
 
 
 def names_live_pid(content, world):
@@ -337,7 +337,7 @@ def run_case(case):
     g = G()
     d = tempfile.mkdtemp(dir=g["dir"])
     world = World(d)
-    world.alive = set(PIDS) | {FOREIGN_LIVE}
+    world.alive = set(PIDS) | {FOREIGN_LIVE, 1, 2}        # (pid 1: a master running as the init process of a container)
     old_os, old_tmp = pf.os, pf.tempfile
     pf.os, pf.tempfile = OsProxy(world), TempProxy(world)
     pf.open = world.open_file          # the builtin, as seen from gunicorn.pidfile
@@ -483,7 +483,7 @@ def run_crash(case, pf, world, d):
     path = os.path.join(d, "gunicorn.pid")
     me = PIDS[0]
     start = case["start"]
-    prev = {"absent": None, "stale": "%d\n" % FOREIGN_DEAD, "garbage": "junk", "own": "%d\n" % me, "live-other": "%d\n" % FOREIGN_LIVE}[start]
+    prev = {"absent": None, "stale": "%d\n" % FOREIGN_DEAD, "garbage": "junk", "own": "%d\n" % me, "live-other": "%d\n" % FOREIGN_LIVE, "live-pid-1": "1\n"}[start]
     world.cur_pid = me
     src = os.path.join(d, "old.pid")
     if case["op"] == "rename":
@@ -521,7 +521,7 @@ def run_crash(case, pf, world, d):
         vio.append(Violation("atomic-content", "C17/partial-or-foreign-content-after-crash:%s" % case["op"],
                              observed={"content": now, "trace": world.trace, "crash": [case["at"], case["when"]], "start": start},
                              expected={"one_of": allowed}))
-    if start == "live-other" and now != prev:
+    if start in ("live-other", "live-pid-1") and now != prev:
         vio.append(Violation("refuse-live", "C17/live-pid-file-replaced:%s" % case["op"], observed={"content": now}, expected=prev))
     if not crashed and raised is None and now != "%d\n" % me and not (start == "own" and case["op"] == "create"):
         vio.append(Violation("create-completes", "C17/uncrashed-%s-did-not-write-pid" % case["op"], observed={"content": now}, expected="%d\n" % me))
